@@ -78,7 +78,8 @@ fn exec_mut(m: &BTreeMap<String, String>) -> String {
                 let doc = format!(r#"{{"zarr_format":3,"node_type":"array","shape":[4,6],"data_type":"uint8","chunk_grid":{{"name":"regular","configuration":{{"chunk_shape":[2,3]}}}},"chunk_key_encoding":{{"name":"default","configuration":{{"separator":"/"}}}},"fill_value":0,"codecs":[{{"name":"bytes"}}],"attributes":{},"dimension_names":["y0","x0"]}}"#, first);
                 store.set(&key("a/zarr.json"), doc.into_bytes().into()).unwrap();
             } else {
-                store.set(&key("a/.zarray"), br#"{"zarr_format":2,"shape":[4,6],"chunks":[2,3],"dtype":"|u1","compressor":null,"fill_value":0,"order":"C","filters":null}"#.to_vec().into()).unwrap();
+                let dt = m.get("dt").map(|s| s.as_str()).unwrap_or("|u1");
+                store.set(&key("a/.zarray"), format!(r#"{{"zarr_format":2,"shape":[4,6],"chunks":[2,3],"dtype":"{}","compressor":null,"fill_value":0,"order":"C","filters":null}}"#, dt).into_bytes().into()).unwrap();
                 if first != "{}" { store.set(&key("a/.zattrs"), first.clone().into_bytes().into()).unwrap(); }
             }
             let mut a = match Array::open(store.clone(), "/a") { Ok(a) => a, Err(_) => return "rej-open".into() };
@@ -90,7 +91,9 @@ fn exec_mut(m: &BTreeMap<String, String>) -> String {
                     a.set_dimension_names(names);
                 }
             }
-            let opts = zarrs::array::ArrayMetadataOptions::default().with_include_zarrs_metadata(m["zarrs"] == "1");
+            let mut opts = zarrs::array::ArrayMetadataOptions::default().with_include_zarrs_metadata(m["zarrs"] == "1");
+            // every metadata option: what is stored must open again as the same array
+            if let Some(al) = m.get("alias") { opts.set_convert_aliased_extension_names(al == "1"); }
             if a.store_metadata_opt(&opts).is_err() { return "err-store".into(); }
             let b = match Array::open(store.clone(), "/a") { Ok(b) => b, Err(_) => return "rej-reopen".into() };
             let dims = match b.dimension_names() { None => "none".to_string(), Some(ns) => ns.iter().map(|n| n.as_str().map(|s| s.to_string()).unwrap_or("-".into())).collect::<Vec<_>>().join(",") };
@@ -722,6 +725,15 @@ pub fn generate(tier: &str, seed: u64) -> Vec<String> {
             let mut l = format!("c13 mut kind={} first={} attrs={} zarrs={}", kind, hex(first.as_bytes()), hex(attrs.as_bytes()), r2.below(2));
             if kind.starts_with('a') && r2.chance(1, 2) { l.push_str(&format!(" shape={},{}", r2.range(1, 9), r2.range(1, 9))); }
             if kind == "a3" && r2.chance(2, 3) { l.push_str(&format!(" dims={}", *r2.pick(&["none", "y,x", "-,x", "rows,-", "-,-", "a,a"]))); }
+            out.push(l);
+        }
+        // the metadata options of `store_metadata_opt` (own stream): V2 data types of every byte order, alias conversion on/off
+        let mut r3 = Rng::new(seed ^ 0xC13_78);
+        for _ in 0..(if tier == "thorough" { 120 } else { 30 }) {
+            let kind = *r3.pick(&["a3", "a2", "a2"]);
+            let attrs = *r3.pick(&objs);
+            let mut l = format!("c13 mut kind={} first={} attrs={} zarrs={} alias={}", kind, hex(b"{}"), hex(attrs.as_bytes()), r3.below(2), r3.below(2));
+            if kind == "a2" { l.push_str(&format!(" dt={}", *r3.pick(&["|u1", "|i1", "<i2", ">i2", "<u4", ">u4", "<f4", ">f8", "<f8", "|b1", "<i8", ">u8"]))); }
             out.push(l);
         }
     }
